@@ -204,11 +204,22 @@ func runC13Conc(t *testing.T, scn *c13Scn, prefix []int) (x explore.Exec) {
 
 func c13Sched(pts []explore.SchedPoint) string {
 	var s []string
-	for _, p := range pts {
-		n := p.Alts[p.Chosen].Name
-		if k := strings.Index(n, "("); k > 0 {
-			n = n[:k]
+	for i, p := range pts {
+		if i >= 80 {
+			s = append(s, "...")
+			break
 		}
+		n := p.Alts[p.Chosen].Name
+		// "<thread>@<kind>(<site>)": keep thread and kind, drop the site and package qualifiers
+		if at := strings.LastIndex(n, "@"); at > 0 {
+			kind := n[at:]
+			if k := strings.Index(kind, "("); k > 0 {
+				kind = kind[:k]
+			}
+			n = n[:at] + kind
+		}
+		n = strings.ReplaceAll(n, "v2.(*Server).", "Server.")
+		n = strings.ReplaceAll(n, "traversal.(*Operation).", "op.")
 		s = append(s, n)
 	}
 	return strings.Join(s, " ")
